@@ -461,6 +461,35 @@ def seq_corpus():
 
 
 
+def sugar_corpus():
+    """Helpers whose arguments are themselves sugar (seeded C14-h: `None_(opt_ty)` unpacked the payload row of a
+    payload type that happened to be a tys.Option, so None_(Option(Bool)) built Option(Bool))."""
+    b, i5, T, t3 = ["bool"], ["int", 5], ["bool", True], ["int", 3, 5]
+    ob, eb = ["option", [b]], ["either", [b], [i5]]
+    return [
+        # None_ of exactly one payload type that is an Option / Tuple / Either / unit sum / the same rows spelt out
+        ["none", [ob]], ["none", [["option", [b, ["unit", 1]]]]], ["none", [["option", []]]],
+        ["none", [["option", [ob]]]], ["none", [["tuple", [b, i5]]]], ["none", [["tuple", []]]], ["none", [eb]],
+        ["none", [["unit", 2]]], ["none", [["sum", [[], [b]]]]], ["none", [ob, ob]], ["none", [ob, b]],
+        # ... of Left / Right
+        ["left", [], [ob]], ["left", [T], [eb]], ["left", [T], [["tuple", [b, i5]]]], ["right", [ob], []],
+        ["right", [eb], [t3]], ["right", [["tuple", [b, b]]], [T]], ["left", [], [["unit", 3]]],
+        # exactly one value argument that is itself a helper value
+        ["some", [["none", [b]]]], ["some", [["some", [T]]]], ["some", [["some", []]]], ["some", [["tuple", [T, t3]]]],
+        ["some", [["tuple", []]]], ["some", [["left", [T], [i5]]]], ["some", [["unitsum", 1, 3]]],
+        ["tuple", [["tuple", [T, t3]]]], ["tuple", [["tuple", [T]]]], ["tuple", [["tuple", []]]],
+        ["tuple", [["some", [T]]]], ["tuple", [["none", [ob]]]], ["tuple", [["right", [b], [t3]]]],
+        ["left", [["left", [T], [i5]]], [eb]], ["left", [["tuple", [T, t3]]], []], ["left", [["some", [T]]], [ob]],
+        ["left", [["none", [ob]]], [i5]],
+        ["right", [eb], [["right", [b], [t3]]]], ["right", [], [["tuple", [T, t3]]]], ["right", [ob], [["none", [b]]]],
+        # both inhabitants of Option(Option(Bool)) side by side under the declared type
+        ["list", [["some", [["none", [b]]]], ["none", [ob]]], ["option", [ob]]],
+        ["array", [["none", [ob]], ["some", [["some", [T]]]]], ["option", [ob]]],
+        ["sum", 1, ["sum", [[i5], [["option", [ob]]]]], [["none", [ob]]]],
+        ["sum", 0, ["sum", [[], [ob]]], []], ["sum", 1, ["sum", [[], [ob]]], [["none", [b]]]],
+    ]
+
+
 def shrink_seq(case):
     steps = case["steps"]
     S = lambda st: {"kind": "seq", "steps": st}
@@ -568,7 +597,7 @@ class C14(fw.Prop):
             # the declared element / field type forgets (or invents) the requirements of the function it holds
             ["array", [["func", "dfgx", [], [], ["e.one"]]], ["func", [], [], []]],
             ["sum", 0, ["sum", [[["func", [], [], ["e.one"]]]]], [["func", "dfg", [], []]]],
-        ]] + seq_corpus()
+        ]] + [{"kind": "val", "val": v} for v in sugar_corpus()] + seq_corpus()
 
     def generate(self, rng, tier, ctx):
         k = 1 if tier == "quick" else 7
@@ -612,6 +641,10 @@ class C14(fw.Prop):
         # remembered across a change: seeded C14-e, C14-f); drawn last, the streams above are unchanged
         for _ in range(260 * k):
             cases.append(rand_seq(rng))
+        # helpers whose type / value arguments are themselves sugar, rows of exactly one entry favoured (seeded
+        # C14-h); drawn last, the streams above are unchanged
+        for _ in range(170 * k):
+            cases.append({"kind": "val", "val": tv.rand_sugar_val(rng, rng.choice([1, 2, 2, 3]))})
         return cases
 
     # ------------------------------------------------------------------ implementation
@@ -734,6 +767,8 @@ class C14(fw.Prop):
             return
         for s in tv.shrink_val(case["val"]):
             yield {**case, "val": s}
+        for s in tv.shrink_helper_rows(case["val"]):
+            yield {**case, "val": s}
 
     def neighbours(self, case, rng):
         if case["kind"] == "seq":
@@ -748,6 +783,8 @@ class C14(fw.Prop):
             out.append({"kind": "val", "val": tv.rand_val(rng, rng.choice([1, 2, 3]))})
         for _ in range(100):
             out.append({"kind": "val", "val": tv.rand_val_reqs(rng, rng.choice([0, 1, 2]))})
+        for _ in range(200):
+            out.append({"kind": "val", "val": tv.rand_sugar_val(rng, rng.choice([1, 2, 3]))})
         # the value observed a second time after a change, and changed into
         v = case["val"]
         for w in tv.child_vals(v)[:3] + [["bool", True]]:
@@ -766,6 +803,9 @@ class C14(fw.Prop):
              # serialized form ("Tuple" shorthand / general "Sum"), and raw val.Extension constants whose serialized
              # `extensions` differ (as a set) from the caller's list
              "root_tuple_spelling": {}, "raw_extension_lists_changed": 0,
+             # helpers whose arguments are themselves sugar: 'none:option' = a None_ with an Option among its payload
+             # types, 'some<none' = a Some holding a None_ value; '!' = called with exactly that one argument
+             "helpers_over_sugar": {},
              "histories": {"n": 0, "moments": 0, "leaf_change": {}, "host": {}, "ctx_layers": {}, "value_changed": 0,
                            "reported_type_changed": 0}}
         for c, o in zip(cases, observations):
@@ -789,6 +829,7 @@ class C14(fw.Prop):
             for kk, n in tv.vkinds(c["val"]).items():
                 d["constructors"][kk] = d["constructors"].get(kk, 0) + n
             d["broken"] += bool(c.get("broken"))
+            tv.sugar_args(c["val"], d["helpers_over_sugar"])
             todo = [c["val"]]
             while todo:
                 x = todo.pop()
